@@ -687,5 +687,70 @@ def check_writers(pid, tier, seed, scratch, replay):
     return rep.finish()
 
 
+# ------------------------------------------------------------------------------------------------
+# C08: totality
+# ------------------------------------------------------------------------------------------------
+
+@register("C08")
+def check_totality(pid, tier, seed, scratch, replay):
+    import concurrent.futures as cf
+    thorough = tier == "thorough"
+    rep = Report(pid, tier, seed)
+    rep.rule = ("TLC enumerates (spec/Totality.tla): every token sequence of length <=K (quick 3, thorough 4) over per-format alphabets "
+                "that contain malformed tokens (timing line without end / start, bare arrow, unbalanced tags, rows before / shorter / "
+                "longer than Format, bad numbers, unknown style / region references, <p> without begin / end ...) for SRT, WebVTT, SSA, "
+                "TTML; every field-level mutation of a valid STL file (16 GSI fields x 5 value classes, 7 TTI fields x 7 classes, 5 sizes); "
+                "the lattice of public-type values with every optional part present/absent (metadata, maps nil/empty/definitions with "
+                "and without inline style, key != id, item / run inline style, style, region incl. detached ones, empty lines, STL "
+                "position, timestamp map) x 7 text classes (empty, leading combining mark, control characters, non-BMP, invalid UTF-8, "
+                "line terminators) - written by all 5 writers and passed through the list transformations. Exploration (labelled as "
+                "such): truncation at every offset, single-byte replace / insert / delete with 18 interesting bytes, splices, every "
+                "document through every reader, random junk, the extension-dispatching opener. Each call runs under recover() and a "
+                "watchdog (5 s + 50 us/byte); TLC validates outcome in {ok, err} for every call. Termination of the line scanner loop "
+                "under every read schedule is model-checked (ScannerMC, liveness). Non-trivial = distinct inputs.")
+    rep.assumptions = ["'time proportional to the input' is approximated by the watchdog budget; no complexity bound is proved",
+                       "teletext streams are covered by the C06 stream builder (documents handed over through -extra when present)",
+                       "byte-level mutations and junk are exploration, not enumeration"]
+    drive = vlib.build_harness(scratch)
+    K = 4 if thorough else 3
+    jobs = []
+    for kind, parts in (("srt", 2), ("vtt", 8 if thorough else 3), ("ssa", 8 if thorough else 3), ("ttml", 6 if thorough else 2), ("stl", 1)):
+        for p in range(parts):
+            jobs.append((kind, K, p, parts, None))
+    sparts = 16
+    for p in (range(sparts) if thorough else [(seed + i * 5) % sparts for i in range(3)]):
+        jobs.append(("shapes", 6, p, sparts, None))
+
+    def run_gen(job):
+        kind, k, p, parts, _ = job
+        out = scratch.path("tot.%s.%d.ndjson" % (kind, p))
+        r = tlc(scratch, "GenTotality", "GenTotality.cfg", env=dict(GEN_KIND=kind, GEN_K=k, GEN_PART=p, GEN_PARTS=parts, GEN_OUT=out), heap="3g", timeout=2400)
+        require_ok(r, "GenTotality %s part %d" % (kind, p))
+        tr = scratch.path("trace.tot.%s.%d.ndjson" % (kind, p))
+        vlib.run_drive(drive, ["totality", "-cases", out, "-out", tr, "-n0", str((hash(kind) % 50) * 10000000 + p * 1000000)], timeout=3000)
+        return tr
+
+    eparts = 8
+
+    def run_bytes(p):
+        tr = scratch.path("trace.tot.bytes.%d.ndjson" % p)
+        vlib.run_drive(drive, ["totality", "-out", tr, "-seed", str(seed), "-part", str(p), "-parts", str(eparts), "-n0", str(900000000 + p * 1000000),
+                               "-dense", "3000" if thorough else "400"], timeout=3000)
+        return tr
+
+    with cf.ThreadPoolExecutor(max_workers=vlib.NCPU) as ex:
+        mc = ex.submit(lambda: require_ok(tlc(scratch, "ScannerMC", "MC_Scanner_cur.cfg", workers=3), "ScannerMC termination"))
+        gf = [ex.submit(run_gen, j) for j in jobs]
+        bf = [ex.submit(run_bytes, p) for p in range(eparts)]
+        t1 = [f.result() for f in gf]
+        t2 = [f.result() for f in bf]
+        vals = validate(ex, scratch, t1 + t2, "TraceTotality", "TraceTotality.cfg", per_jvm=8000)
+        rep.add_mc("MC_Scanner_cur.cfg (termination)", mc.result())
+    collect(rep, vals, pid, nontrivial=lambda ev: True, key=lambda ev: [ev["kind"], ev["label"], ev["input"]], is_first=lambda ev: True)
+    rep.extra["enumerated_by_tlc"] = sum(vlib.count_lines(t) for t in t1)
+    rep.extra["exploration_events"] = sum(vlib.count_lines(t) for t in t2)
+    return rep.finish()
+
+
 def selftest(pid, tier, seed, scratch, replay):
     raise Infra("selftest not implemented yet")
